@@ -230,6 +230,15 @@ _extend('C02',
         ' END TO END (C02_generate_insertion_independent, composing C03_generate_is_dataflow and C03_model_log_exact): two builds of one '
         'well-formed model that differ only in the order in which nodes, edges and observed data were inserted return the same values and '
         'the same call log from generate; C02_model_ok: the model\'s own pair of results passes the decidable determinism predicate.')
+_extend('C02',
+        ' HISTORIES ON ONE MODEL OBJECT (C02_generate_history_independent, C02_model_ok with a history, C02_ok_sound): the model\'s generate is a '
+        'function of the CURRENT source net, the outputs and the supplied values only, so for every history of generate calls (any outputs, seeds) '
+        'and edits of one object (become, observed data, flags, parameters, added / removed nodes and edges; no hypothesis relates consecutive nets) each call '
+        'returns the values and the call order of a freshly built model with the same nodes, edges and observed data in any insertion order - the end-to-end '
+        'theorem applied to the current net of the step. Correspondence: on every case a 5-11 step history of generate calls and public-API edits '
+        '(incl. edits that keep the node and edge counts) runs on one recording model and on its numeric twin; every generate call is reproduced by the model from '
+        'the introspected current graph alone (step_agree) and compared with the same call on a freshly built object holding that graph (step_ok in Coq for values and call '
+        'order; draws and tobytes python-side).')
 _extend('C14',
         ' C14_become_keeps_children / _takes_parents / _others_untouched / _observed: the exact edge, node and observed-data '
         'characterisation of become (update_node) incl. the recursive private-parent clean-up, for every model with simple edges (an '
@@ -237,3 +246,79 @@ _extend('C14',
         'unreachable under the acyclicity guard).',
         [('Partial: "become keeps the children" is checked on the implementation dumps on every run but not proved for the model '
           '(acyclicity after become under the guard is proved: C14_become_acyclic); pickle', 'Partial: pickle')])
+_extend('C08',
+        ' gradient_logpdf on array inputs (Proofs/C08_Gradient.v, binary64 model of gradient_logpdf + numgrad in PrimFloat over an '
+        'arbitrary log density): C08_gradient_matrix_rows - the gradient of a matrix is, row by row, the numgrad stencil of that row '
+        'alone, for every stepsize form and any number of rows; C08_gradient_row_local - the gradient row of a point depends on the log '
+        'density only through the point\'s own 3*dim stencil points (neither values nor the "-inf => zero gradient" rule of one row reach '
+        'another row); C08_gradient_row_alone - row i of the matrix answer is the answer to point i alone; '
+        'C08_gradient_single_point_forms / C08_gradient_answer_shape - one-row matrix, vector, scalar give the same row, shapes (dim,) / '
+        '(n,dim); C08_gradient_ok_sound with C08_gradient_row_ok_zero / _finite - what the decidable statement demands of each row. '
+        'Correspondence on every run: matrices mixing rows inside, far in a tail, outside, on the end of and within a few steps of the end '
+        'of the support of one conditional density (beta / norm / expon / uniform, hierarchical), default / scalar / per-dimension '
+        'stepsizes, the matrix, each row alone and a permuted sub-matrix with another stepsize; the table of the object\'s own logpdf on '
+        'each single row\'s stencil goes to Coq, where the model must reproduce every answer and every row must be zero iff ITS stencil '
+        'reaches -inf, else equal the central difference of logpdf around that row (1e-6) and the analytic derivative of the sum of the '
+        'conditional log densities at interior points (1e-3); python side: matrix rows bit-identical to the single-row answers.',
+        [('Partial: "gradient agrees with '
+          'the derivative" beyond the stencil identity and exactness on quadratics is numerical analysis (sampled)',
+          'PrimFloat primitives (kernel) appear in Print Assumptions of the C08_gradient_* theorems. Partial: "gradient agrees with '
+          'the derivative" beyond the stencil identity, row independence and exactness on quadratics is numerical analysis (sampled '
+          'against hand-written analytic derivatives at interior points); the convention "zero gradient where the stencil reaches a '
+          'point of zero density" (also for a point inside the support but closer to its end than the step) is the code\'s, taken as '
+          'the reading of the property there')])
+_extend('C03',
+        ' DECLARED GRAPH (coq/Graph/Declared.v, wave 3): every case carries the (parent, child, parameter) triples the harness declared - '
+        'constructor argument positions, explicit GraphicalModel.add_edge positions (0 attached after higher ones, sparse, continuing '
+        'after constructor parents), named parameters and the implicit next-free-position form, attached in shuffled order, also to '
+        'children created before their parents; the decidable check Declared.dok (C03_declared_ok_sound) demands that the parameters '
+        'declared for one child are distinct, that the introspected source net carries exactly the declared triples, and that the '
+        'implementation result satisfies Denote.ok for the DECLARED graph as well as for the net it holds; the model\'s own run passes '
+        'it (C03_model_declared_ok) and every script of explicit add_edge calls on distinct pairs stores exactly the declared '
+        'parameters (C03_explicit_edges_are_declared, over the model of GraphicalModel.add_edge/get_parents in Declared.v).',
+        [('recording operations stand for arbitrary callables.',
+          'recording operations stand for arbitrary callables; the declaration is what the harness itself issued (two parents on one '
+          'position, reachable only through explicit add_edge with duplicate indices, are outside the property and never generated).')])
+_extend('C07',
+        ' NUMERIC CLAUSES IN COQ (wave 3; Sched/Smc.v npop / num_agree / num_ok, Proofs/C07_Weights.v): the case record carries, per '
+        'population, the particles, the implementation weights and covariance and oracle tables (independent log-prior support flag, prior '
+        'density, normal component densities under the previous population); num_ok states positive prior density of every particle, '
+        'finite non-negative weights, first weights 1, later weight = prior / mixture of the previous population with ITS weights '
+        '(purely relative 1e-8) and covariance = diag(2 x reliability-weights variance) (purely relative, conditioning-aware), and is '
+        'sound (C07_num_ok_sound, C07_num_ok_cov_sound); the code-level formulas (C13 models gm_pdf / weighted_var) meet the statement and '
+        'do not depend on the common factor of the weights (C07_weight_is_prior_over_mixture, C07_weight_scale_invariant, '
+        'C07_cov_is_twice_weighted_variance, C07_cov_scale_invariant, C07_model_weight_ok, C07_model_cov_ok). The runs now include '
+        'hierarchical priors whose child distribution is undefined once the parent leaves its support (U(0,2s) -> U(0,parent), '
+        'U(0,2s) -> N(0,parent), Expon(s) -> U(0,parent)), parameters on scales 1e-6..1e6 and mixed scales in one model; every '
+        'simulated draw of every round (OutputPool) must have positive prior density under an independent log-domain prior.',
+        [('scipy densities/samplers are oracles.',
+          'scipy densities/samplers are oracles; the prior density and the normal component densities enter the Coq statement as '
+          'oracle tables computed by the harness (own formulas, standardised coordinates); a model whose parameter scales differ by more '
+          'than ~1e4 makes scipy refuse the proposal covariance (LinAlgError, run does not finish): counted and skipped.')])
+_extend('C14',
+        ' WAVE 3: in-place writes to one node state through a reference are operations of the model and of the scripts (ESetFlag: '
+        'model[n].uses_meta = b as elfi/examples/bdm.py does, model.get_state(n)["attr_dict"][key] = b, '
+        'model.source_net.nodes[n]["attr_dict"][key] = b, node["attr_dict"][key] for _uses_meta / _uses_batch_size / _uses_observed, '
+        '_parameter set / popped), on any live model and mostly right after a copy / reload, on the source or on the new model; '
+        'C14_edits_preserve_structure and C14_reachable_simple cover them; C14_state_write / C14_state_write_flag: exactly the named flag '
+        'of the named node changes. Copy independence is now also a theorem of the model (value semantics): C14_step_frame (one '
+        'operation leaves every live model it is not addressed to unchanged, none is dropped), C14_copy_equals_source, C14_run_frame '
+        '(along any script a live model nobody writes to keeps its value) and C14_copy_independent (after copy / save+load, whatever is '
+        'done to the original the copy keeps the value of copy time, and vice versa); the correspondence compares the dumps of ALL live '
+        'models after every operation with that model, so a state dict shared between a copy and its original shows at the first '
+        'in-place write.')
+_extend('C15',
+        ' Wave 3: C15_first_appearance (the value at the raw position of a first appearance is the sub seed of the index "number of '
+        'distinct values drawn before"), C15_nodup_prefix (on a duplicate-free prefix the sub seed of index i is raw draw i) and '
+        'C15_raw_draw_wrong_at_collision (at the first repeated raw draw d the raw draw is NOT the sub seed of d, for every range). '
+        'The correspondence now also covers (ii) large ranges 2**10..2**32 (2**31 weighted) with requests placed around the first '
+        'three repeated draws of the master seed\'s stream (index ~1e4..2e5 for 2**31/2**32; cached consecutive from 0, jumping, '
+        'decreasing, uncached, and through prepare_seed) and (iii) nearly exhausted medium ranges (high 50..6000, last 1..10 indices, '
+        'thousands of loop passes per call; consecutive from 0 / jumping / decreasing / uncached / out of range). Every answer of every '
+        'case is compared python-side with an independent numpy statement of the spec (value at the (idx+1)-th first appearance) and must '
+        'be in range, distinct per index and rejected iff idx >= high; cases whose stream prefix fits a Coq literal (<= 5000 draws) also go '
+        'through Seed.agree/Seed.ok, where the reference answers themselves are checked against Seed.spec (ref_ok, C15_ref_ok_sound).',
+        [('termination of the real loop is probabilistic',
+          'for indices/ranges whose stream prefix is too long for a Coq literal (2**31 with index >= ~5000, high > ~600 near exhaustion) the '
+          'verdict on the implementation answers comes from the python/numpy reference of the spec, which is validated against Seed.spec '
+          'on every case that does reach Coq but is itself trusted there; termination of the real loop is probabilistic')])
